@@ -603,7 +603,7 @@ CHECK = Check(
     rule=(
         "(i) protocol level: _HttpServerProtocol with a recording transport; byte strings from a grammar (GET/HEAD/POST/PUT x endpoint / "
         "near-miss paths x HTTP versions x headers) mutated by truncation, binary splices, oversize headers (10 kB - 1 MB), bare LF, two "
-        "requests, pure garbage, split into 1-5 data_received chunks; endpoint name generated from URL-path characters. Oracle: "
+        "requests, pure garbage, request targets of 12-5000 characters (complete / truncated / without version), split into 1-5 data_received chunks; endpoint name generated from URL-path characters. Oracle: data_received stays within a budget of 2 s of process CPU time (it runs on the worker's event loop); "
         "data_received raises nothing but Exception, any response is well-formed with matching Content-Length and status 200/503 only for "
         "GET on the endpoint (equal to the current health status) else 404, the connection is closed after a response, a well-formed "
         "single-chunk request is always answered. (ii) socket level on a real loop: Worker with the health server on 127.0.0.1:free "
